@@ -615,9 +615,18 @@ class Hist(object):
                     if r["got"] == 0:
                         return did, r
             return cands[-1]
-        for did, r in cands:             # wire side: the oldest one not seen yet with these addresses
-            if r["wire"] == 0 and r["dst"] == dsap and (r["src"] is None or r["src"] == ssap):
-                return did, r
+        # wire side: the oldest one not seen yet with these addresses.  Identical tiny payloads cannot be told apart:
+        # the datagram of a sender that was closed before its datagram crossed the link may legitimately have been
+        # discarded, so a record of a still open sender is matched first (the never-transmitted clause only judges
+        # open senders; matching the closed sender's record first made it fire for a datagram that WAS transmitted)
+        fit = [(did, r) for did, r in cands
+               if r["wire"] == 0 and r["dst"] == dsap and (r["src"] is None or r["src"] == ssap)]
+        for want_open in (True, False):
+            for did, r in fit:
+                sid = r.get("sid")
+                is_open = sid is not None and sid in self.socks and self.usable(sid)
+                if is_open == want_open:
+                    return did, r
         return None, None
 
     def arrive(self, rend, q):
